@@ -131,6 +131,13 @@ def _shard(arg) -> Stats:
         st.transitions += 1
         m = corpus.parse(text, rel)
         if m is None:
+            if corpus.was_verified(rel, ci, text):
+                # custom-format text that the repository's own tests treat as valid (and that was accepted when the
+                # manifest was generated) is now rejected
+                exc, msg = corpus.why_rejected(text, rel)
+                names = [n for n in OPNAME.findall(msg) if "." in n]
+                st.violate(f"C05|corpus|accepted-custom-form-now-rejected|{exc}|{rel}",
+                           f"a corpus chunk that used to parse and verify is rejected: {exc}: {msg}", {"file": rel, "chunk": ci})
             st.outcomes["not-a-verified-module"] += 1
             continue
         st.states += 1
@@ -178,9 +185,10 @@ def run(ctx):
 def replay(rep) -> bool:
     w = rep["witness"]
     st = Stats()
-    m = corpus.parse(corpus.chunks_of(w["file"])[w["chunk"]])
+    text = corpus.chunks_of(w["file"])[w["chunk"]]
+    m = corpus.parse(text)
     if m is None:
-        return True
+        return not corpus.was_verified(w["file"], w["chunk"], text)
     if w.get("variant"):
         label, k, key = w["variant"]
         op = list(m.walk())[k]
